@@ -125,14 +125,19 @@ def originName : Option Spec.Precedence.Origin → String
   | some .functionAnnotation => "function_annotation"
   | some .commandLine => "command_line"
 
-def showLayer (l : Layer Val) : String :=
-  l.source.name ++ "[" ++ l.label ++ "]{" ++
-    ",".intercalate ((l.vals.filter (fun kv => kv.2.isSome)).map (fun kv => kv.1 ++ "=" ++ showOptVal kv.2)) ++ "}"
+def showLabel : Label → String
+  | .none => ""
+  | .contract k => "contract:" ++ k
+  | .function k f => "function:" ++ k ++ "." ++ f
 
-def showConfig (c : Config Val) : String := ";".intercalate (c.map showLayer)
+def showLayer (l : Layer Val) : String :=
+  l.source.name ++ "[" ++ showLabel l.label ++ "]{" ++
+    "&".intercalate ((l.vals.filter (fun kv => kv.2.isSome)).map (fun kv => kv.1 ++ "=" ++ showOptVal kv.2)) ++ "}"
+
+def showConfig (c : Config Val) : String := "|".intercalate (c.map showLayer)
 
 def showOverrides (ov : List (String × Option Val)) : String :=
-  ",".intercalate ((ov.filter (fun kv => kv.2.isSome)).map (fun kv => kv.1 ++ "=" ++ showOptVal kv.2))
+  "&".intercalate ((ov.filter (fun kv => kv.2.isSome)).map (fun kv => kv.1 ++ "=" ++ showOptVal kv.2))
 
 def parseLengths? (s : String) : Option (List (Str × List Int)) :=
   if !(s.startsWith "{" && s.endsWith "}") then none
